@@ -1592,7 +1592,12 @@ class Translator:
             b = self.lookup_binding(keys)
             if b is not None:
                 otext = self.expr(lv)
-                obj = otext if me.get('isArrow') else self.addr(otext)
+                if me.get('isArrow'):
+                    obj = otext
+                elif self.strip_keep_mat(lv).get('kind') == 'MaterializeTemporaryExpr' or not self.is_glvalue(lv):
+                    obj = self.temp_addr(lv, otext)
+                else:
+                    obj = self.addr(otext)
                 return self.apply_binding(b, n, obj, None, argnodes)
         otext = self.expr(objn)
         if me.get('isArrow'):
@@ -1677,6 +1682,19 @@ class Translator:
         except Unsupported:
             pass
         b = self.lookup_binding(keys)
+        if b is None:
+            # the operator may be declared in a base class: try the operand below derived-to-base conversions
+            lv = a0
+            while b is None and lv.get('kind') == 'ImplicitCastExpr' and lv.get('castKind') in ('DerivedToBase', 'UncheckedDerivedToBase', 'NoOp'):
+                lv = lv['inner'][0]
+                ks = ['o:%s:%s' % (op, self.objtype(lv))]
+                try:
+                    ks.append('o:%s:@%s' % (op, self.ntype(lv).base))
+                except Unsupported:
+                    pass
+                b = self.lookup_binding(ks)
+            if b is not None:
+                a0 = lv
         if b is not None:
             obj = self.expr(a0)
             if self.strip_keep_mat(a0).get('kind') == 'MaterializeTemporaryExpr':
